@@ -467,11 +467,12 @@ def c_backend_rule(ck, mod, ks, label):
     hdr = f.loops[0]["header"]
     K = [gf2.sym_word(("mem", st, 16 + 4 * i), 8) + gf2.sym_word(("mem", st, 16 + 4 * i + 1), 8) + gf2.sym_word(("mem", st, 16 + 4 * i + 2), 8) + gf2.sym_word(("mem", st, 16 + 4 * i + 3), 8) for i in range(nk)]
     S0 = [gf2.sym_word(("mem", st, 4 * i), 8) + gf2.sym_word(("mem", st, 4 * i + 1), 8) + gf2.sym_word(("mem", st, 4 * i + 2), 8) + gf2.sym_word(("mem", st, 4 * i + 3), 8) for i in range(4)]
-    # loop-carried values: which header phis hold the state words / the counter
+    # loop-carried values: which header phis hold the state words / the counter / a key position
     sphi, cphi = {}, None
     pre = [p for p in paths if p.end[0] == "loop-entry"]
     if len(pre) != 1:
         raise Broken("%s: %d paths reach the loop" % (fname, len(pre)))
+    others = []
     for iid in f.blocks[hdr].insts:
         I = f.insts[iid]
         if I.op != "phi":
@@ -481,17 +482,77 @@ def c_backend_rule(ck, mod, ks, label):
             for i in range(4):
                 if ini == S0[i]:
                     sphi[I.id] = i
-        elif ini == irx.Lf.s(("n", 1)):
-            cphi = I
+        else:
+            others.append((I, ini))
     n = 0
     mem_state = len(sphi) == 0      # state kept in memory instead of SSA values
+    back0 = [p for p in paths if p.end[0] == "backedge"]
+    down = [I for I, ini in others if ini == irx.Lf.s(("n", 1))]
+    up = [I for I, ini in others if ini is not None and not irx.is_word(ini) and ini.const() == 0 and back0
+          and all(any(cc[0] == "ult" and cc[2] and cc[1] == irx.Lf({("hd", I.id): 1, ("n", 1): -1}) for cc in p.conds)
+                  and p.env.get(("back", I.id)) == irx.Lf({("hd", I.id): 1, 1: 1}) for p in back0)]
+    counting_up = False
+    if down:
+        cphi = down[0]
+    elif len(up) == 1:
+        # `for (done = 0; done < rounds; ++done)`: the counter runs up to the round count in steps of one, so it equals the round count when the
+        # head test fails (it starts at 0 <= rounds and is increased only below rounds); rounds left = rounds - done
+        cphi = up[0]
+        counting_up = True
     if (len(sphi) not in (0, 4)) or cphi is None:
         raise Broken("%s: cannot identify the loop-carried state words / round counter: unrecognised shape" % fname)
+    aux = [(I, ini) for I, ini in others if I is not cphi]
+    def keypos(v):
+        """key position (in words) denoted by a carried integer index or by a carried pointer into the key words of the state"""
+        if v is None or irx.is_word(v):
+            return None
+        if v.const() is not None:
+            return v.const()
+        ob_, of_ = v.base()
+        if ob_ == st and of_.const() is not None and of_.const() >= 16 and (of_.const() - 16) % 4 == 0:
+            return (of_.const() - 16) // 4
+        return None
+    if len(aux) > 1 or any(keypos(ini) is None for _I, ini in aux):
+        raise Broken("%s: the loop carries further values besides the state words and the round counter (%s): unrecognised shape" % (fname, [repr(x[1]) for x in aux]))
     ck.ob(not [e for e in pre[0].events if e[0] == "out"], "R-C05-EFFECT", fname, "no-store-before-loop@c32/%s" % ks, "nothing is stored before the loop", "stores before the loop", where=where)
     S = [gf2.sym_word(("hdw", byidx), 32) for byidx in sorted(sphi, key=lambda k: sphi[k])] if not mem_state else None
     rem = ("hd", cphi.id)
+    xeq = {hdr: (cphi.id, irx.Lf.s(("n", 1)))} if counting_up else None
+    # a loop-carried key position (index of the next key word, wrapping at the key length): its finite orbit is enumerated, the iteration
+    # is evaluated once per value with the key schedule of the specification started at that word
+    runs = []
+    incomplete = False
+    nviol0 = len(ck.violations)
+    if aux:
+        A_, a0 = aux[0][0], aux[0][1]
+        todo, orbit = [a0], []
+        while todo:
+            v = todo.pop(0)
+            if repr(v) in orbit:
+                continue
+            if len(orbit) >= 12:
+                incomplete = True       # (values found so far are reachable; what they refute stays refuted)
+                break
+            orbit.append(repr(v))
+            ex_v = irx.Exec(f, handler, head_consts={A_.id: v}, exit_eq=xeq)
+            ps_v = [p for p in ex_v.run() if p.blocks and p.blocks[0] == hdr]
+            runs.append((keypos(v), ps_v))
+            for p in ps_v:
+                if p.end[0] == "backedge":
+                    b_ = p.env.get(("back", A_.id))
+                    b_ = ex_v.subst(p, b_) if (b_ is not None and not irx.is_word(b_)) else None
+                    if keypos(b_) is None:
+                        raise Broken("%s: the carried key position does not come back as a position in the key words (%s): unrecognised shape" % (fname, b_))
+                    todo.append(b_)
+    elif counting_up:
+        ex_v = irx.Exec(f, handler, exit_eq=xeq)
+        runs.append((0, [p for p in ex_v.run() if p.blocks and p.blocks[0] == hdr]))
+    else:
+        runs.append((0, [p for p in paths if p.end[0] != "loop-entry"]))
     seenj = set()
-    for p in paths:
+    for koff, rpaths in runs:
+      tagk = "" if not aux else "{key position %d}" % koff
+      for p in rpaths:
         if p.end[0] == "loop-entry":
             continue
         # state at the head of this path
@@ -506,34 +567,46 @@ def c_backend_rule(ck, mod, ks, label):
         if p.end[0] == "backedge":
             back = p.env.get(("back", cphi.id))
             d = back.add(irx.Lf.s(rem), -1).const() if not irx.is_word(back) else None
-            J = -d if d is not None else None
-            ck.ob(J is not None and J > 0, "R-C05-SCHED", fname, "iteration-decrement@c32/%s" % ks, "one loop iteration decreases the round counter by %s" % J,
-                  "the round counter is not decreased by a positive constant per iteration (%s)" % (back,), where=where)
+            J = (d if counting_up else -d) if d is not None else None
+            ck.ob(J is not None and J > 0, "R-C05-SCHED", fname, "iteration-decrement@c32/%s%s" % (ks, tagk), "one loop iteration moves the round counter by %s towards its end" % J,
+                  "the round counter is not moved by a positive constant per iteration (%s)" % (back,), where=where)
             if not J or J > 8:
                 continue
-            exp = asmx.spec_rounds(S, K, J)
+            exp = asmx.spec_rounds(S, K, J, key_offset_words=koff)
             bad = None
             for pid, i in sphi.items():
                 got = p.env.get(("back", pid))
                 if not irx.is_word(got) or got != exp[i]:
                     bad = (i, got)
-            ck.ob(bad is None, "R-C05-STEP", fname, "iteration@c32/%s" % ks, "one loop iteration (%d rounds) carries exactly the bit-serial specification applied %d times" % (J, 128 * J),
+            ck.ob(bad is None, "R-C05-STEP", fname, "iteration@c32/%s%s" % (ks, tagk), "one loop iteration (%d rounds) carries exactly the bit-serial specification applied %d times" % (J, 128 * J),
                   "state word %s after one loop iteration differs from the specification: %s" % (bad[0] if bad else "", _diff(bad[1], exp[bad[0]]) if bad and irx.is_word(bad[1]) else "not a data word"), where=where)
-            ck.ob((4 * J) % nk == 0, "R-C05-SCHED", fname, "key-period@c32/%s" % ks, "loop body of %d rounds realigns the %d-word key schedule" % (J, nk),
-                  "loop body of %d rounds does not realign the %d-word key schedule: later iterations use the wrong key words" % (J, nk), where=where)
-            ck.ob(not outs, "R-C05-EFFECT", fname, "no-store-in-loop@c32/%s" % ks, "the loop body stores nothing", "the loop body stores to %s" % sorted(outs)[:3], where=where)
+            if aux:
+                kb = p.env.get(("back", aux[0][0].id))
+                kbc = keypos(kb)
+                ck.ob(kbc == (koff + 4 * J) % nk, "R-C05-SCHED", fname, "key-position@c32/%s%s" % (ks, tagk), "the carried key position moves on by %d words modulo %d" % (4 * J, nk),
+                      "after %d round(s) from key position %d the carried key position is %s, the schedule continues at %d" % (J, koff, kbc, (koff + 4 * J) % nk), where=where)
+            else:
+                ck.ob((4 * J) % nk == 0, "R-C05-SCHED", fname, "key-period@c32/%s" % ks, "loop body of %d rounds realigns the %d-word key schedule" % (J, nk),
+                      "loop body of %d rounds does not realign the %d-word key schedule: later iterations use the wrong key words" % (J, nk), where=where)
+            ck.ob(not outs, "R-C05-EFFECT", fname, "no-store-in-loop@c32/%s%s" % (ks, tagk), "the loop body stores nothing", "the loop body stores to %s" % sorted(outs)[:3], where=where)
             n += 4
             continue
         if p.end[0] != "ret":
             raise Broken("%s: path ends by %s" % (fname, p.end[0]))
-        j = p.eqs.get(rem)
+        if counting_up:
+            # the head test failed with the counter at the round count (exit value established above): no round left
+            if not any(cc[0] == "ult" and not cc[2] and cc[1] == irx.Lf({rem: 1, ("n", 1): -1}) for cc in p.conds):
+                raise Broken("%s: a path leaves the up-counting loop other than through its head test: unrecognised shape" % fname)
+            j = 0
+        else:
+            j = p.eqs.get(rem)
         if j is None:
             ck.bad("R-C05-SCHED", fname, "exit-count@c32/%s:%s" % (ks, len(seenj)),
                    "a path leaves the function without its conditions fixing the remaining round count (conditions: %s): for some counts the wrong number of rounds runs"
                    % [(c[0], repr(c[1]), c[2]) for c in p.conds], where=where)
             continue
         seenj.add(j)
-        exp = asmx.spec_rounds(S, K, j) if j else S
+        exp = asmx.spec_rounds(S, K, j, key_offset_words=koff) if j else S
         bad = None
         for i in range(4):
             bits = []
@@ -545,12 +618,14 @@ def c_backend_rule(ck, mod, ks, label):
                 bad = (i, bits)
                 break
         extra = [k for k in outs if k[0] != st or not (0 <= k[1] < 16)]
-        ck.ob(bad is None, "R-C05-STEP", fname, "exit-with-%d-rounds-left@c32/%s" % (j, ks),
+        ck.ob(bad is None, "R-C05-STEP", fname, "exit-with-%d-rounds-left@c32/%s%s" % (j, ks, tagk),
               "with %d round(s) left at the loop head the function stores exactly the specification applied %d more times" % (j, 128 * j),
               "with %d round(s) left at the loop head, state word %s stored differs from the specification after %d more rounds: %s"
               % (j, bad[0] if bad else "", j, _diff(bad[1], exp[bad[0]]) if bad and all(x is not None for x in bad[1]) else "word not stored"), where=where)
-        ck.ob(not extra, "R-C05-EFFECT", fname, "stores-only-state@c32/%s:%d" % (ks, j), "only the four state words are stored", "stores outside the four state words: %s" % extra[:3], where=where)
+        ck.ob(not extra, "R-C05-EFFECT", fname, "stores-only-state@c32/%s:%d%s" % (ks, j, tagk), "only the four state words are stored", "stores outside the four state words: %s" % extra[:3], where=where)
         n += 2
+    if incomplete and len(ck.violations) == nviol0:
+        raise Broken("%s: the carried key position takes more than 12 values: not enumerated" % fname)
     ck.ob(0 in seenj, "R-C05-SCHED", fname, "exit-classes@c32/%s" % ks, "the function can leave with 0 rounds left (exit classes: %s)" % sorted(seenj),
           "no exit for 'no rounds left' (exit classes %s)" % sorted(seenj), where=where)
     return n + 2
